@@ -213,6 +213,54 @@ theorem bit_k_is_source_k (modes : List Mode) (inp inp' : Nat → MIn) (k : Nat)
   refine ⟨hb.1, ?_⟩
   simp only [trgOut, hb.2, (h t).1]
 
+/-! ## a tree of monitors: the outgoing line of a child monitor is a (level-triggered) source of the parent map -/
+
+/-- source `k` of the parent is fed by the child's outgoing line -/
+def Cascade (modesC : List Mode) (inpC inpP : Nat → MIn) (k : Nat) : Prop :=
+  ∀ t, (inpP t).i k = line modesC (mst modesC inpC t) (inpC t)
+
+/-- CASCADE, one step: the parent's pending bit of a cascaded source is set exactly by the child's line (some event of the
+    child both enabled and pending), else cleared by the parent's clear, else kept -/
+theorem cascade_pending_step (modesP modesC : List Mode) (inpP inpC : Nat → MIn) (k : Nat)
+    (hk : modesP[k]? = some .level) (hc : Cascade modesC inpC inpP k) (t : Nat) :
+    (mst modesP inpP (t + 1)).pending k =
+      (line modesC (mst modesC inpC t) (inpC t) || ((mst modesP inpP t).pending k && !(inpP t).clear k)) := by
+  have hlt : k < modesP.length := by
+    rw [List.getElem?_eq_some_iff] at hk; exact hk.1
+  rw [pending_step modesP inpP t k hlt, trg_by_mode modesP inpP t k .level hk, hc t]
+
+/-- CASCADE, end to end: an event that is enabled and pending in the child in cycle `t` is pending in the parent one cycle
+    later, and — when the parent enables that source — raises the parent's outgoing line then: nothing is lost or delayed on
+    the way up, and the parent's bit is not set in that step by anything else -/
+theorem cascade_propagates (modesP modesC : List Mode) (inpP inpC : Nat → MIn) (k : Nat)
+    (hk : modesP[k]? = some .level) (hc : Cascade modesC inpC inpP k) (t j : Nat)
+    (hj : j < modesC.length) (hen : (inpC t).enable j = true) (hpend : (mst modesC inpC t).pending j = true) :
+    (mst modesP inpP (t + 1)).pending k = true ∧
+    ((inpP (t + 1)).enable k = true → line modesP (mst modesP inpP (t + 1)) (inpP (t + 1)) = true) := by
+  have hlt : k < modesP.length := by
+    rw [List.getElem?_eq_some_iff] at hk; exact hk.1
+  have hline : line modesC (mst modesC inpC t) (inpC t) = true :=
+    (line_iff modesC _ _).mpr ⟨j, hj, hen, hpend⟩
+  have hp : (mst modesP inpP (t + 1)).pending k = true := by
+    rw [cascade_pending_step modesP modesC inpP inpC k hk hc t, hline]; rfl
+  exact ⟨hp, fun he => (line_iff modesP _ _).mpr ⟨k, hlt, he, hp⟩⟩
+
+/-- … and conversely a quiet child sets nothing in the parent: without the child's line, the parent's bit can only keep its
+    value or be cleared -/
+theorem cascade_quiet (modesP modesC : List Mode) (inpP inpC : Nat → MIn) (k : Nat)
+    (hk : modesP[k]? = some .level) (hc : Cascade modesC inpC inpP k) (t : Nat)
+    (hq : line modesC (mst modesC inpC t) (inpC t) = false) :
+    (mst modesP inpP (t + 1)).pending k = ((mst modesP inpP t).pending k && !(inpP t).clear k) := by
+  rw [cascade_pending_step modesP modesC inpP inpC k hk hc t, hq]; rfl
+
+/-- non-vacuity of the cascade: a child with one level source that is high in cycle 0 only; the parent's source 0 is the
+    child's line; the child's event (pending from cycle 1) is pending in the parent from cycle 2 -/
+example :
+    let inpC : Nat → MIn := fun t => ⟨fun _ => t == 0, fun _ => true, fun _ => false⟩
+    let inpP : Nat → MIn := fun t => ⟨fun _ => line [Mode.level] (mst [Mode.level] inpC t) (inpC t), fun _ => true, fun _ => false⟩
+    Cascade [Mode.level] inpC inpP 0 ∧ (mst [Mode.level] inpP 1).pending 0 = false ∧ (mst [Mode.level] inpP 2).pending 0 = true := by
+  refine ⟨fun _ => rfl, by decide, by decide⟩
+
 /-- non-vacuity: a rising-edge source triggers in the very cycle it is cleared: the event survives -/
 example :
     let modes := [Mode.level, Mode.rise]
